@@ -13,7 +13,7 @@ gt = {'target': [type,id,gen], 'objs': [[argindex, kind('obj'|'new'), type,id,ge
 from . import wlxml, printer
 
 SERVER_ID_START = 0xff000000
-STRINGS = ['', 'hello', 'Hello World', 'org.gnome.gedit', 'a, b', 'f(x, y)', '[x]', ', ', ')', 'żółć', ' lead', 'it\'s',
+STRINGS = ['[1.000] <7>  -> x@1.y(', 'q [2.5] <0> a#1.b(', 'two  spaces', 'tab\there', 'wl_seat', 'wl_surface', '5', 'left', '', 'hello', 'Hello World', 'org.gnome.gedit', 'a, b', 'f(x, y)', '[x]', ', ', ')', 'żółć', ' lead', 'it\'s',
            'wl_surface@3', 'nil', '-7', 'x' * 40, 'title (1) [2]']
 UNKNOWN_IFACES = ['zz_unknown_v1', 'my_private_iface', 'vq_thing']
 POPULAR = ['wl_compositor', 'wl_shm', 'wl_seat', 'wl_data_device_manager', 'xdg_wm_base', 'wl_subcompositor', 'wl_output',
@@ -82,7 +82,7 @@ class Sim:
 
     def alloc_client(self, avoid=()):
         free = [i for i in self.free_client if i not in avoid]
-        if free and self.rng.random() < 0.9:
+        if free and self.rng.random() < self.o.get('reuse_bias', 0.9):
             i = min(free)           # libwayland hands out the lowest free id first: maximal reuse
             self.free_client.remove(i)
             return i
@@ -103,11 +103,17 @@ class Sim:
         return i
 
     def tick(self):
+        if len(self.hist) < self.o.get('tie_prefix', 0):
+            return self.t          # the first messages all carry the time of the very first line
         r = self.rng.random()
         eq = 0.0 if self.o['unique_times'] else self.o['equal_times']
         th = self.o.get('thresh', 0.06)
         big = self.o['big_gaps'] * 0.3
-        if r < eq:
+        back = self.o.get('backsteps', 0.0)
+        if back and self.rng.random() < back:
+            # the clock steps backwards (logs of two processes joined, a delayed stderr write, counter wrap)
+            d = -self.rng.choice([1, 500, 999, 1000, 400000, 1000000, 1500000, 3000000, self.rng.randint(1, 5000000)])
+        elif r < eq:
             d = 0
         elif r < eq + th:
             d = self.rng.choice([999999, 1000000, 1000000, 1000001, 999900, 1000100, 1500000, 2000000])
@@ -117,6 +123,8 @@ class Sim:
             d = self.rng.randint(1, 90)
         else:
             d = self.rng.randint(100, 20000)
+        if self.t + d < 0:
+            d = 0
         self.t += d
         return self.t
 
@@ -303,7 +311,7 @@ class Sim:
         self.emit(False, cb, 'done', [{'k': 'u', 'v': self.rng.randint(0, 100000)}])
         cb.zombie = True
         self.pending_delete.append(cb)
-        if self.rng.random() < 0.8:
+        if self.rng.random() < self.o.get('prompt_delete', 0.8):
             self.act_delete_id()
 
     def act_delete_id(self):
@@ -551,12 +559,12 @@ class Sim:
         name = self.rng.choice(['set_title', 'set_app_id']) if ob.type != 'wl_shell_surface' else 'set_title'
         if self.msg_desc(ob.type, name) is None:
             return False
-        self.emit(True, ob, name, [{'k': 's', 'v': self.rng.choice(['', 'a.', 'org.gnome.gedit', 'Title, with (stuff)', '.', 'x'])}])
+        self.emit(True, ob, name, [{'k': 's', 'v': self.rng.choice(['', 'a.', 'org.gnome.gedit', 'Title, with (stuff)', '.', 'x', 'A', 'a', 'b', 'B', 'b', 'c', 'C', 'd', 'all', 'aa'])}])
         return True
 
     def act_client_destroy(self):
         """the client drops a client-range object without a destructor request in the XML (e.g. after an event)"""
-        obs = [o for o in self.live() if 1 < o.id < SERVER_ID_START and not o.zombie and o.type != 'wl_registry']
+        obs = [o for o in self.live() if 1 < o.id < SERVER_ID_START and not o.zombie and (o.type != 'wl_registry' or self.rng.random() < 0.3)]
         if not obs:
             return False
         ob = self.rng.choice(obs)
@@ -580,6 +588,8 @@ class Sim:
                 for _ in range(rng.randint(1, 4)):
                     self.act_sync()
                     self.act_callback_done()
+            elif r < h + 0.01:
+                self.act_get_registry()      # clients may ask for the registry again (and the id of a deleted one is reused)
             elif r < h + 0.05:
                 self.act_global()
             elif r < h + 0.12:
@@ -594,11 +604,11 @@ class Sim:
                 self.act_callback_done()
             elif r < h + 0.36:
                 self.act_display_error()
-            elif r < h + 0.38:
+            elif r < h + 0.36 + self.o.get('titles', 0.02):
                 self.act_titles()
-            elif r < h + 0.38 + self.o.get('newer', 0.03):
+            elif r < h + 0.36 + self.o.get('titles', 0.02) + self.o.get('newer', 0.03):
                 self.act_newer_protocol()
-            elif r < h + 0.38 + self.o.get('newer', 0.03) + self.o['server_new'] * 0.2:
+            elif r < h + 0.36 + self.o.get('titles', 0.02) + self.o.get('newer', 0.03) + self.o['server_new'] * 0.2:
                 self.act_server_new() or self.act_global()
             else:
                 self.act_generic() or self.act_bind()
